@@ -14,10 +14,10 @@ from .core import Check, exc_code, h63_list
 IMPORTS = ["Base.Prelude", "Psd.Codec", "Psd.Model", "Psd.Corr"]
 
 
-def walk_out(b, check_rle=False):
+def walk_out(b, check_rle=False, descend=False):
     """canonical outcome of the Python walker: [0, #blocks, digest(kind,size,...)] or [1]"""
     try:
-        lay = F.walk(b, check_rle=check_rle)
+        lay = F.walk(b, check_rle=check_rle, descend=descend)
     except F.WalkError as e:
         return [1], str(e)
     flat = []
@@ -174,6 +174,25 @@ def run():
                 ck.fail("walker-rejects-pixel-document", c01.jcase(case), info, "RLE row tables sum to the channel data", case=c01.jcase(case))
             else:
                 ck.nontriv(h63_list(0, list(r["bytes"])))
+        # ---- (b2) 16/32-bit documents: the layers live in a Lr16 / Lr32 block (LayerInfoBlock), channel lengths stale at write time
+        for i in range(1200 if thorough else 150):
+            case = F.g_lr_case(rng, [1, 2][i % 2], [1, 2, 4][i % 3])
+            r = F.run_lr_case(case, exc_code)
+            if r["bytes"] is None:
+                ck.count("doc:lr-not-written")
+                continue
+            ck.count("doc:lr16/lr32")
+            jc = c01.jcase(case)
+            if r["written"] != len(r["bytes"]):
+                ck.fail("written-count-psd", jc, r["written"], len(r["bytes"]), lr=True)
+            stale = F.stale_channel_lengths(r["block"].data)
+            if stale:
+                ck.fail("channel-length-field-lr16", jc, "layer %d channel %d: stored length %d" % stale[0][:3], stale[0][3], lr=True)
+            wo, info = walk_out(r["bytes"], descend=True)
+            if wo == [1]:
+                ck.fail("walker-rejects-lr16-document", jc, info, "every region filled exactly, inside the Lr16/Lr32 block too", lr=True)
+            else:
+                ck.nontriv(h63_list(0, list(r["bytes"])))
         # ---- (c) fixtures re-written
         lim = 1 << 40 if thorough else 300000
         lim_coq = 600000 if thorough else 120000
@@ -189,7 +208,7 @@ def run():
                 b = f.getvalue()
                 if n != len(b):
                     ck.fail("written-count-fixture", {"fixture": name, "padding": pad}, n, len(b))
-                wo, info = walk_out(b, check_rle=True)
+                wo, info = walk_out(b, check_rle=True, descend=True)
                 ck.count("fixture-rewrite")
                 if wo == [1]:
                     ck.fail("walker-rejects-rewritten-fixture", {"fixture": name, "padding": pad}, info, "every region filled exactly")
@@ -290,6 +309,8 @@ def replay(path):
     F.quiet()
     fl = json.load(open(path))
     print("kind:", fl["kind"], "| expected:", fl["expected"], "| observed:", str(fl["observed"])[:400])
+    if fl.get("lr"):
+        return c01.replay(path)
     if "case" in fl:
         case = c01.unjcase(fl["case"])
         r = F.run_impl(case, exc_code)
